@@ -520,3 +520,6 @@ func ControlledBy(in ssa.Instruction, ifi *ssa.If, branch bool) bool {
 	}
 	return EdgeDominates(ifi.Block(), ifi.Block().Succs[idx], in.Block())
 }
+
+// PathItoa exposes itoa.
+func PathItoa(i int) string { return itoa(i) }
